@@ -1,6 +1,7 @@
 Require Extraction.
 Require Import ExtrOcamlBasic.
-From LedgerV Require Import Base.Prelude Base.Round Base.ExtractHelpers Model.Amount Model.Totals.
+From LedgerV Require Import Base.Prelude Base.Round Base.ExtractHelpers Model.Amount Model.Totals Model.Deferred.
 Extraction "model_C05.ml" h_add h_mul h_div h_mod h_opp h_ltb h_eqb h_qred h_qmake h_qnum h_qden
   reg_rows row_shown display_value bal_rows grand_total collapsed collapsed_rows mark own_of own_lazy_twice simplified_or_zero
-  max_depth total_of bal_layout read_tree layout_ok.
+  max_depth total_of bal_layout read_tree layout_ok
+  account_view acct_final jp_post.
